@@ -287,6 +287,36 @@ func r202(c *Ctx) {
 	for w, what := range want {
 		c.ob(rule, "preRun/refuses "+what, pre.Pos(), seen[w], true, "guard: "+w)
 	}
+	// ... and refuses them in EVERY case: on no way through preRun that ends in success can all the parts of a documented
+	// refusal hold (path by path: a refusal that also asks for something else - "no buffering of either kind" - lets the
+	// documented combination through)
+	paths, complete := enumPaths(pre, func(r *ssa.Return) bool { return isNilConst(lastRet(r)) }, 4096)
+	if !complete {
+		c.undecided(rule, "preRun/refusals-are-complete", pre.Pos(), "too many paths (or a loop) to enumerate")
+	} else {
+		for w, what := range want {
+			okRow := true
+			witness := ""
+			for _, conds := range paths {
+				g := " && " + c.preRunGuard(conds) + " && "
+				excluded := false
+				for _, part := range strings.Split(w, " && ") {
+					neg := "!" + part
+					if strings.HasPrefix(part, "!") {
+						neg = part[1:]
+					}
+					if strings.Contains(g, " && "+neg+" && ") {
+						excluded = true
+					}
+				}
+				if !excluded {
+					okRow = false
+					witness = strings.Trim(g, " &")
+				}
+			}
+			c.ob(rule, "preRun/always-refuses "+what, pre.Pos(), okRow && len(paths) > 0, true, "a successful way through the pre-flight on which the refusal's condition ("+w+") is not excluded: "+witness)
+		}
+	}
 	// what was validated is what is sent: after the pre-flight nothing in the CLI changes an option the refusals test
 	for _, fname2 := range []struct{ typ, field string }{{"ServiceOptions", "TLSEnabled"}, {"ServiceOptions", "Hosts"}, {"ServiceOptions", "PathPrefixes"}, {"TargetOptions", "BufferRequests"}, {"TargetOptions", "BufferResponses"}, {"TargetOptions", "MaxRequestBodySize"}, {"TargetOptions", "MaxResponseBodySize"}} {
 		f := c.field(fname2.typ, fname2.field)
@@ -726,6 +756,9 @@ func r205(c *Ctx) {
 					}
 				}
 				c.ob(rule, "displayResponse/row-has-six-columns", cs.pos(), n == 6 && nCond == 0, true, fmt.Sprintf("%d columns, %d conditions", n, nCond))
+				if n == 6 {
+					c.listRowColumns(rule, cs, varargElemsOfSliceLit(cs.common().Args[1]))
+				}
 			}
 		}
 	}
@@ -779,4 +812,77 @@ func describeListValue(v ssa.Value) string {
 		return ch[len(ch)-2].Name() + "." + ch[len(ch)-1].Name()
 	}
 	return "?"
+}
+
+// listRowColumns: the six cells of a row describe ONE service: the key of this iteration and, looked up under that key,
+// its host, path, target and state; the TLS cell is "yes" exactly when that entry's TLS flag is set.
+func (c *Ctx) listRowColumns(rule string, row callSite, cols []ssa.Value) {
+	targetsF := c.fieldIn(c.server, "ListResponse", "Targets")
+	key := resolve(cols[0])
+	src, full := fullRangeElem(key)
+	okKey := false
+	if full {
+		// the keys of the reply's map (sorted or not)
+		var fromTargets func(v ssa.Value, d int) bool
+		fromTargets = func(v ssa.Value, d int) bool {
+			if d > 4 {
+				return false
+			}
+			v = resolve(v)
+			if isLoadOfField(v, targetsF) {
+				return true
+			}
+			if call, ok := v.(*ssa.Call); ok && len(call.Call.Args) >= 1 {
+				switch {
+				case strings.HasPrefix(calleeName(call.Common()), "slices.Sorted"), strings.HasPrefix(calleeName(call.Common()), "maps.Keys"), strings.HasPrefix(calleeName(call.Common()), "slices.Collect"):
+					return fromTargets(call.Call.Args[0], d+1)
+				}
+			}
+			return false
+		}
+		okKey = fromTargets(src, 0)
+	}
+	c.ob(rule, "displayResponse/row-name-is-this-iteration's-key", row.pos(), okKey, true, "the first cell must be the key the loop is at, taken from a complete pass over the reply's map")
+	entryOf := func(v ssa.Value) (string, bool) {
+		ch, base := fieldPath(throughStructCopy(resolve(v)))
+		if len(ch) == 0 {
+			return "", false
+		}
+		base = resolve(base)
+		if u, ok := base.(*ssa.UnOp); ok && u.Op == token.MUL {
+			if a, ok := u.X.(*ssa.Alloc); ok {
+				if cv := cellValue(a); cv != nil {
+					base = resolve(cv)
+				}
+			}
+		}
+		l, ok := base.(*ssa.Lookup)
+		if !ok || !isLoadOfField(resolve(l.X), targetsF) || resolve(l.Index) != key {
+			return "", false
+		}
+		return ch[len(ch)-1].Name(), true
+	}
+	for i, want := range []string{"Host", "Path", "Target", "State"} {
+		got, ok := entryOf(cols[i+1])
+		c.ob(rule, "displayResponse/column-"+want, row.pos(), ok && got == want, true, fmt.Sprintf("cell %d must be the %s of the entry under this row's key (got %q)", i+1, want, got))
+	}
+	isTLS := func(v ssa.Value) bool {
+		n, ok := entryOf(v)
+		return ok && n == "TLS"
+	}
+	okTLS, nCases := true, 0
+	why := ""
+	for _, vc := range valueCases(cols[5], row.instr.Block()) {
+		nCases++
+		sv, isConst := constString(vc.val)
+		on, off := boolFactsOf(vc.conds, isTLS)
+		switch {
+		case isConst && sv == "yes" && on:
+		case isConst && sv == "no" && off:
+		default:
+			okTLS = false
+			why = fmt.Sprintf("a way of filling the cell that is not \"yes\" under TLS / \"no\" under !TLS of this entry (value %s)", vc.val.String())
+		}
+	}
+	c.ob(rule, "displayResponse/column-TLS", row.pos(), okTLS && nCases >= 2, true, "the TLS cell must say yes exactly when this entry's TLS flag is set: "+why)
 }
